@@ -11,6 +11,7 @@ import Hts.Lemmas.BamReadSpec
 import Hts.Lemmas.BamTotal
 import Hts.Lemmas.BamOverBgzf
 import Hts.Lemmas.BamCoord
+import Hts.Lemmas.BamHeaderC07
 import Hts.Props.C16
 namespace Hts.Props.C05
 open Hts.Model.Bam
@@ -153,6 +154,52 @@ theorem file_roundtrip_bgzf (c : Codec) (hb : Bounded c.toCodecFns) (hdrBytes : 
         readAll om n ((blocks.flatten.map ofU8).drop hdrBytes.length) = (rs.map (expected om), none) :=
   bam_over_bgzf c hb hdrBytes om rs h
 
+open Hts.Model.Header in
+/-- `HeaderFramed` DISCHARGED from C07's model: for every header `h` of a consistent C07 world `w` that is API-built
+with canonical URIs (C07's `ApiBuilt`, `UriCanon`), whose sizes fit the int32 fields and whose marshalled form consists
+of bytes (C07 models bytes as unbounded naturals, so `< 256` is an explicit condition), the bytes `MarshalBinary(h)` and
+the decoder built from C07's `decodeBinaryR` (`hdrDecoder`) satisfy `HeaderFramed`, the header returned being the
+VALUES the header exposes (`view w h`) -/
+theorem headerFramed_api_header (E : Ext) (w : World) (hw : WInv w) (h : Nat) (hh : h < w.hdrs.length)
+    (api : ApiBuilt E (view w h)) (uc : UriCanon E (view w h))
+    (hs1 : ((marshalText w h).length : Int) < 2147483648) (hs2 : ((view w h).refs.length : Int) < 2147483648)
+    (hs3 : ∀ r ∈ (view w h).refs, (r.2.1.length : Int) + 1 < 2147483648)
+    (hbytes : ∀ b ∈ marshalBinary w h, b < 256) :
+    HeaderFramed (hdrDecoder E w) (ofNats (marshalBinary w h)) (view w h) :=
+  headerFramed_of_C07 E w hw h hh api uc hs1 hs2 hs3 hbytes
+
+open Hts.Model.Header in
+/-- the whole file with a header of C07's model and NO header hypothesis other than C07's: writing `MarshalBinary(h)`
+and the records, then `NewReader` (C07's `decodeBinaryR`) and `Read` until it fails, returns the values the header
+exposes, the records in order (references index into the decoded reference list) and io.EOF, in every Omit mode -/
+theorem file_roundtrip_api_header (E : Ext) (w : World) (hw : WInv w) (h : Nat) (hh : h < w.hdrs.length)
+    (api : ApiBuilt E (view w h)) (uc : UriCanon E (view w h))
+    (hs1 : ((marshalText w h).length : Int) < 2147483648) (hs2 : ((view w h).refs.length : Int) < 2147483648)
+    (hs3 : ∀ r ∈ (view w h).refs, (r.2.1.length : Int) + 1 < 2147483648)
+    (hbytes : ∀ b ∈ marshalBinary w h, b < 256)
+    (om : Omit) (rs : List Record) (hwf : ∀ r ∈ rs, WF (viewRefs (view w h)) r) :
+    ∃ bytes, writeFile (ofNats (marshalBinary w h)) rs = .ok bytes ∧
+      readFile (hdrDecoder E w) viewRefs om bytes = some (view w h, rs.map (expected om), none) :=
+  readFile_writeFile_C07 E w hw h hh api uc hs1 hs2 hs3 hbytes om rs hwf
+
+open Hts.Model Hts.Model.BgzfWriter Hts.Model.Member Hts.Model.Header in
+/-- ... and under BGZF with C01's models: header from C07's model, record codec from this property's, BGZF from C01's —
+the only assumptions left are C01's codec laws (DEFLATE/CRC-32) and C07's conditions on the header -/
+theorem file_roundtrip_bgzf_api_header (c : Codec) (hb : Bounded c.toCodecFns)
+    (E : Ext) (w : World) (hw : WInv w) (h : Nat) (hh : h < w.hdrs.length)
+    (api : ApiBuilt E (view w h)) (uc : UriCanon E (view w h))
+    (hs1 : ((marshalText w h).length : Int) < 2147483648) (hs2 : ((view w h).refs.length : Int) < 2147483648)
+    (hs3 : ∀ r ∈ (view w h).refs, (r.2.1.length : Int) + 1 < 2147483648)
+    (hbytes : ∀ b ∈ marshalBinary w h, b < 256)
+    (om : Omit) (rs : List Record) (hwf : ∀ r ∈ rs, WF (viewRefs (view w h)) r) :
+    ∃ fs, frames rs = .ok fs ∧
+      (closeOutput c.toCodecFns {} (after (bamScript (ofNats (marshalBinary w h)) fs)).emitted).2 = none ∧
+      ∃ blocks, readStream c.toCodecFns
+          (closeOutput c.toCodecFns {} (after (bamScript (ofNats (marshalBinary w h)) fs)).emitted).1 = some blocks ∧
+        readFile (hdrDecoder E w) viewRefs om (blocks.flatten.map ofU8)
+          = some (view w h, rs.map (expected om), none) :=
+  bam_over_bgzf_C07 c hb E w hw h hh api uc hs1 hs2 hs3 hbytes om rs hwf
+
 /-- no two representable records that differ in anything but "absent vs all-0xff qualities" are written as the same
 bytes -/
 theorem encode_injective {n : Nat} {r₁ r₂ : Record} (h₁ : WF n r₁) (h₂ : WF n r₂)
@@ -261,6 +308,24 @@ example := file_roundtrip (fun bs : List Byte => some ((), bs.drop 4)) (fun _ =>
   (by intro rest; rfl) .aux [sample, sample] (by simp [sample_wf])
 example := file_roundtrip_bgzf Hts.Model.Member.Toy.codec Hts.Model.Member.Toy.bounded [66#8, 65#8, 77#8, 1#8] .none
   (n := 2) [sample, sample] (by simp [sample_wf])
+
+open Hts.Model.Header in
+set_option maxRecDepth 100000 in
+/-- non-vacuity of the C07-header theorems: C07's multi-item world `wM` (references a, c, d after an add/remove history,
+read groups, programs; version 1.6, SO, GO) satisfies every header condition, and `sample` is representable under its
+three references -/
+example := file_roundtrip_bgzf_api_header Hts.Model.Member.Toy.codec Hts.Model.Member.Toy.bounded
+  goExt wM wM_inv 0 (by decide) wM_api.1 wM_api.2 (by decide) (by rw [wM_view]; decide)
+  (by rw [wM_view]; intro r hr; simp only [List.mem_cons, List.not_mem_nil, or_false] at hr
+      rcases hr with rfl | rfl | rfl <;> decide)
+  (by decide +kernel) .none [sample, sample]
+  (by
+    have h3 : viewRefs (view wM 0) = 3 := by rw [wM_view]; rfl
+    rw [h3]
+    intro r hr
+    simp only [List.mem_cons, List.not_mem_nil, or_false, or_self] at hr
+    subst hr
+    exact sample_wf.mono (by decide) (by decide))
 
 /-- a non-trivial alignment the format can represent: 3M1I, bases "ACGTN", aux `NM:C:5`, `XA:Z:hi`, `XB:B:s,1,-2`,
 `XH:H:1AE300` (the digit text) -/
